@@ -239,12 +239,18 @@ class BodyEffects:
                     d = t['dest']
                     if not d['proj'] and ty_refish(self._local_ty(d['l'])):
                         tg = set()
+                        en = self.facts.callee_name(t)
+                        is_next = en.endswith('as std::iter::Iterator>::next') or en.endswith('::next') and 'Iterator' in en
                         for a in t['args']:
                             if a['o'] == 'const':
                                 if 'static' in a: tg.add((('static', a['static']), ('*',)))
                                 continue
                             if ty_refish(self._op_ty(a)):
                                 for (r, q) in self.value_targets(a):
+                                    if is_next and r[0] == 'local' and self._op_ty(a)['t']['k'] in ('ref', 'ptr') and (r, q) in self.resolve(a['p']):
+                                        # Iterator::next(&mut it): std iterators are not lending - the item cannot borrow from `it` itself,
+                                        # only from what `it` refers to
+                                        continue
                                     tg.add((r, path_join(q, ('*',))))
                         add(self.pts if self._is_ref_local(d['l']) else self.inner, d['l'], tg)
 
